@@ -931,21 +931,22 @@ impl<'g, 's> LRTable<'g, 's> {
                 .map(|(idx, _)| self.grammar.term_by_index(TermIndex(idx)))
                 .collect::<Vec<_>>();
 
-            let term_prio = |term: &Terminal| -> u32 {
-                term.prio * 1000
-                    + if self.settings.lexical_disamb_most_specific {
+            // Priority first, then the length of a string recognizer.
+            let term_prio = |term: &Terminal| -> (u32, usize) {
+                (
+                    term.prio,
+                    if self.settings.lexical_disamb_most_specific {
                         match &term.recognizer {
-                            Some(recognizer) => {
-                                (match recognizer {
-                                    Recognizer::StrConst(str_rec) => str_rec.as_ref().len(),
-                                    Recognizer::RegexTerm(_) => 0,
-                                }) as u32
-                            }
+                            Some(recognizer) => match recognizer {
+                                Recognizer::StrConst(str_rec) => str_rec.as_ref().len(),
+                                Recognizer::RegexTerm(_) => 0,
+                            },
                             None => 0,
                         }
                     } else {
                         0
-                    }
+                    },
+                )
             };
             terminals.sort_by(|&l, &r| {
                 let l_term_prio = term_prio(l);
